@@ -280,6 +280,13 @@ def gen_history(seed, tier):
             b.apply(adm)
             prog.append(adm)
             continue
+        if rng.random() < 0.12:
+            prog.append(simgen.gen_retag(rng, w))
+            continue
+        if rng.random() < 0.1:
+            fam = {"kind": "derived", "name": "TableG7", "stride": 2, "offset": 0}
+            prog.append(simgen.gen_fire_tmp(rng, ctx["calc"], fam))
+            continue
         op = gen_param_op(rng, b, w, ctx)
         if op["op"] == "danger_pair":
             rft = rng.uniform(300, 900)
